@@ -126,6 +126,29 @@ class MergeModel(Comp):
             return (None, "the merged tree breaks a tree invariant")
         if t == "empty" and res != s:
             return (None, "merge into an empty target is not a copy of the source")
+        # a default source leaf must not overwrite an explicit target leaf unless LYD_MERGE_DEFAULTS is given
+        # (judged for leaves that occur once in each dump, i.e. outside lists)
+        opts = int(line.split("#o ")[1].split("\t")[0]) if "#o " in line else 0
+        if not opts & MERGE_DEFAULTS:
+            single = []
+            for dmp in (t, s, res):
+                byname = {}
+                stack = []
+                for seg in ([] if dmp in ("empty", "", "-") else dmp.split(";")):
+                    if not seg:
+                        continue
+                    q = seg.split(":")
+                    stack = stack[:int(q[0])] + [q[2]]
+                    byname.setdefault(tuple(stack), []).append((q[3], q[4]))
+                single.append(byname)
+            for path, insts in single[0].items():
+                if len(insts) == 1 and insts[0][0].startswith("=") and "d" not in insts[0][1]:
+                    si, ri = single[1].get(path, []), single[2].get(path, [])
+                    if len(si) == 1 and len(ri) == 1 and "d" in si[0][1] and all(len(single[k].get(path[:n], [])) == 1
+                                                                                 for k in range(3) for n in range(1, len(path))):
+                        if ri[0][0] != insts[0][0] or "d" in ri[0][1]:
+                            return (None, "a default source leaf replaced the explicit target leaf %s without LYD_MERGE_DEFAULTS"
+                                    % "/".join(path))
         # every explicit source node (by instance path, coarse) is in the result with the source's value
         rp = dump_paths(res)
         for path, insts in dump_paths(s).items():
